@@ -1,0 +1,75 @@
+//go:build verif
+// +build verif
+
+package dosnode
+
+// Verification hook (build tag verif) for the watchdog arm of queryLoop.
+//
+// queryLoop creates its 30-minute ticker itself, so the arm cannot be reached
+// from outside. VerifQueryLoopTick is queryLoop VERBATIM with the ticker
+// replaced by a caller-supplied channel: the two statements that create and
+// stop the ticker are left out and `watchdog.C` reads `tick`. /verif's
+// extractor (go/extract/queryloop) regenerates the statement skeleton of both
+// functions on every run and a kernel-checked theorem (Props/C13.lean
+// c13_tick_hook_is_queryLoop) states that they are identical up to exactly
+// that substitution, so an edit of queryLoop that is not mirrored here breaks
+// the check.
+
+import (
+	"time"
+
+	"github.com/DOSNetwork/core/share/vss/pedersen"
+)
+
+func (d *DosNode) VerifQueryLoopTick(tick <-chan time.Time) {
+	defer d.logger.Info("End queryLoop")
+	bufSign := make(map[string][]*vss.Signature)
+	reqSign := make(map[string]request)
+	peerMsg, _ := d.p.SubscribeMsg(50, vss.Signature{})
+	defer d.p.UnSubscribeMsg(vss.Signature{})
+	for {
+		select {
+		case <-d.ctx.Done():
+			defer d.logger.Info("End queryLoop ctx.Done")
+			return
+		case <-tick:
+			for _, req := range reqSign {
+				select {
+				case <-req.ctx.Done():
+					close(req.reply)
+					delete(bufSign, req.requestID)
+					delete(reqSign, req.requestID)
+				default:
+				}
+			}
+		case msg, ok := <-peerMsg:
+			if ok {
+				if content, ok := msg.Msg.Message.(*vss.Signature); ok {
+					requestID := string(content.RequestId)
+					if req, ok := reqSign[requestID]; ok {
+						select {
+						case <-req.ctx.Done():
+						case req.reply <- content:
+						}
+					} else {
+						bufSign[requestID] = append(bufSign[requestID], content)
+					}
+				}
+			}
+		case req, ok := <-d.reqSignc:
+			if ok {
+				//1)Check buf to see if it has enough signatures
+				reqSign[req.requestID] = req
+				if signs := bufSign[req.requestID]; len(signs) >= 0 {
+					for _, sign := range signs {
+						select {
+						case <-req.ctx.Done():
+						case req.reply <- sign:
+						}
+					}
+					bufSign[req.requestID] = nil
+				}
+			}
+		}
+	}
+}
